@@ -70,6 +70,15 @@ Event ==
             /\ StartStep(e.thr, e.uri, e.host)
             /\ win' = [win EXCEPT ![e.thr] = [lo |-> e.lo, hi |-> e.hi]]
             /\ UNCHANGED <<clock, dead>>
+         \* an observer held the cache's read guard and added up what Cache::get returned for every key the run uses:
+         \* the retrievable bytes (Inv_Size: never more than the limit, whatever the handlers are doing meanwhile)
+         \/ /\ e.ev = "sweep"
+            /\ IF e.size <= e.limit
+               THEN UNCHANGED <<entries, total, clock, last, op, files, fhist, pc, rq, resp, win, dead>>
+               ELSE /\ PrintT(ToJson([mismatch_at |-> l, event |-> e, model_response |-> "size bound",
+                                      model_entries |-> entries, model_files |-> files]))
+                    /\ dead' = TRUE
+                    /\ UNCHANGED <<entries, total, clock, last, op, files, fhist, pc, rq, resp, win>>
          \/ /\ e.ev = "end"
             /\ pc[e.thr] = "done"
             /\ IF Matches(e, resp[e.thr])
